@@ -22,6 +22,90 @@ mod mem {
     }
 }
 
+/// Write tracing: the arena is made read-only; every store of the code under test faults, the SIGSEGV handler
+/// records the faulting address, re-enables writing for exactly one instruction (trap flag) and the SIGTRAP
+/// handler protects the arena again.  Gives the *set of addresses written*, independent of the values written
+/// (a store that rewrites the old value outside the destination range is still a write outside the range).
+mod wtrace {
+    use core::sync::atomic::{AtomicUsize, Ordering};
+    pub static LO: AtomicUsize = AtomicUsize::new(0);
+    pub static LEN: AtomicUsize = AtomicUsize::new(0);
+    pub static COUNT: AtomicUsize = AtomicUsize::new(0);
+    pub const CAP: usize = 1 << 16;
+    pub static mut LOG: [usize; CAP] = [0; CAP];
+    #[repr(C)]
+    struct SigAction {
+        handler: usize,
+        flags: u64,
+        restorer: usize,
+        mask: [u64; 16],
+    }
+    extern "C" {
+        fn mprotect(addr: *mut u8, len: usize, prot: i32) -> i32;
+        fn sigaction(sig: i32, act: *const KSigAction, old: *mut KSigAction) -> i32;
+    }
+    // glibc's struct sigaction on x86_64: handler(8) mask(128) flags(4+4 pad) restorer(8)
+    #[repr(C)]
+    struct KSigAction {
+        handler: usize,
+        mask: [u64; 16],
+        flags: i32,
+        _pad: i32,
+        restorer: usize,
+    }
+    const SA_SIGINFO: i32 = 4;
+    const SA_NODEFER: i32 = 0x40000000;
+    const REG_EFL_OFF: usize = 40 + 17 * 8; // ucontext_t.uc_mcontext.gregs[REG_EFL]
+    unsafe extern "C" fn on_segv(_sig: i32, info: *mut u8, ctx: *mut u8) {
+        let addr = *(info.add(16) as *const usize);
+        let lo = LO.load(Ordering::Relaxed);
+        let len = LEN.load(Ordering::Relaxed);
+        if len == 0 || addr < lo || addr >= lo + len {
+            // a genuine wild access: die the normal way
+            let dfl = KSigAction { handler: 0, mask: [0; 16], flags: 0, _pad: 0, restorer: 0 };
+            sigaction(11, &dfl, core::ptr::null_mut());
+            return;
+        }
+        let c = COUNT.fetch_add(1, Ordering::Relaxed);
+        if c < CAP {
+            LOG[c] = addr;
+        }
+        mprotect(lo as *mut u8, len, 3);
+        let efl = ctx.add(REG_EFL_OFF) as *mut u64;
+        *efl |= 0x100;
+    }
+    unsafe extern "C" fn on_trap(_sig: i32, _info: *mut u8, ctx: *mut u8) {
+        let lo = LO.load(Ordering::Relaxed);
+        let len = LEN.load(Ordering::Relaxed);
+        if len != 0 {
+            mprotect(lo as *mut u8, len, 1);
+        }
+        let efl = ctx.add(REG_EFL_OFF) as *mut u64;
+        *efl &= !0x100u64;
+    }
+    pub unsafe fn install() {
+        let a = KSigAction { handler: on_segv as usize, mask: [0; 16], flags: SA_SIGINFO | SA_NODEFER, _pad: 0, restorer: 0 };
+        sigaction(11, &a, core::ptr::null_mut());
+        let b = KSigAction { handler: on_trap as usize, mask: [0; 16], flags: SA_SIGINFO | SA_NODEFER, _pad: 0, restorer: 0 };
+        sigaction(5, &b, core::ptr::null_mut());
+    }
+    pub unsafe fn arm(lo: usize, len: usize) {
+        COUNT.store(0, Ordering::Relaxed);
+        LO.store(lo, Ordering::Relaxed);
+        LEN.store(len, Ordering::Relaxed);
+        mprotect(lo as *mut u8, len, 1);
+    }
+    pub unsafe fn disarm() -> usize {
+        let lo = LO.load(Ordering::Relaxed);
+        let len = LEN.load(Ordering::Relaxed);
+        LEN.store(0, Ordering::Relaxed);
+        mprotect(lo as *mut u8, len, 3);
+        COUNT.load(Ordering::Relaxed)
+    }
+}
+
+static TRACE: core::sync::atomic::AtomicBool = core::sync::atomic::AtomicBool::new(false);
+
 const MARGIN: usize = 4096;
 const MAX_SIZE: usize = 4194304;
 const HASH_P: u64 = 36028797018963913; // 2^55 - 55
@@ -128,8 +212,15 @@ fn run(ar: &mut Arena, line: &str) -> Option<String> {
         unsafe { *base.add(o) = v };
     }
     let mut out;
+    let tracing = TRACE.load(core::sync::atomic::Ordering::Relaxed);
     unsafe {
         let pa = base.add(a);
+        if tracing {
+            // whole pages covering margin + arena + margin
+            let lo = (base as usize) - MARGIN;
+            let len = (size + 2 * MARGIN + 4095) / 4096 * 4096;
+            wtrace::arm(lo, len.min(ar.cap));
+        }
         match op {
             "set" => {
                 let r = mem::memset(pa, b as i32, n);
@@ -159,7 +250,29 @@ fn run(ar: &mut Arena, line: &str) -> Option<String> {
                 let v = mem::bcmp(pa, base.add(b as usize), n);
                 out = format!("h={} val={}", ar.hash(size), v);
             }
-            _ => return None,
+            _ => {
+                if tracing {
+                    wtrace::disarm();
+                }
+                return None;
+            }
+        }
+        if tracing {
+            let cnt = wtrace::disarm();
+            let writes_allowed = !matches!(op, "cmp" | "bcm");
+            let (dlo, dhi) = (pa as usize, pa as usize + n);
+            let mut outside = 0usize;
+            let mut first: i64 = 0;
+            for k in 0..cnt.min(wtrace::CAP) {
+                let ad = wtrace::LOG[k];
+                if !writes_allowed || ad < dlo || ad >= dhi {
+                    if outside == 0 {
+                        first = ad as i64 - dlo as i64;
+                    }
+                    outside += 1;
+                }
+            }
+            out.push_str(&format!(" stores={} outside={} first_outside_rel_dest={}", cnt, outside, first));
         }
     }
     if ar.wild(size) {
@@ -173,6 +286,10 @@ fn main() {
     let stdout = std::io::stdout();
     let mut o = std::io::BufWriter::new(stdout.lock());
     let mut ar = Arena::new();
+    if std::env::args().any(|a| a == "--trace") {
+        TRACE.store(true, core::sync::atomic::Ordering::Relaxed);
+        unsafe { wtrace::install() };
+    }
     for line in stdin.lock().lines() {
         let line = line.unwrap();
         if line.trim() == "consts" {
